@@ -6,18 +6,18 @@ package main
 
 import (
 	"bytes"
-	"math/big"
-	"strconv"
 	"context"
 	"encoding/json"
 	"fmt"
 	"go/ast"
 	"go/types"
+	"math/big"
 	"os"
 	"os/exec"
 	"path/filepath"
 	"regexp"
 	"sort"
+	"strconv"
 	"strings"
 	"time"
 )
@@ -78,15 +78,6 @@ func (w *World) replaySpecSource(pk *Pkg) string {
 	for _, d := range pk.GenFile.Decls {
 		fd, ok := d.(*ast.FuncDecl)
 		if !ok {
-			continue
-		}
-		isGhost := false
-		for _, gd := range pk.Decls {
-			if gd.Kind == "ghost" && gd.Name == fd.Name.Name {
-				isGhost = true
-			}
-		}
-		if isGhost {
 			continue
 		}
 		// loop invariants / hints / cut refer to locals: harmless as plain functions
@@ -344,8 +335,26 @@ func (w *World) replay(u *UnitResult, o *Obligation, outPath string) *ReplayResu
 		args := strings.Join(names, ", ")
 		fmt.Fprintf(&tb, "\tsay(\"inputs: %s\", %s)\n", strings.Repeat("%v ", len(names)), orNil(args))
 		fmt.Fprintf(&tb, "\tif %s__req(%s) && !%s__ens(%s) { confirmed = true; say(\"CONFIRMED: lemma false for these values\") }\n", d.Name, args, d.Name, args)
+	case "ghost":
+		fd := pk.Funcs[d.Name]
+		obj := pk.Info.Defs[fd.Name].(*types.Func)
+		sig := obj.Type().(*types.Signature)
+		var argNames []string
+		for i := 0; i < sig.Params().Len(); i++ {
+			p := sig.Params().At(i)
+			fmt.Fprintf(&tb, "\tvar %s %s = %s\n", p.Name(), types.TypeString(p.Type(), qual), goValueOf(p.Type(), trees[p.Name()], qual))
+			argNames = append(argNames, p.Name())
+		}
+		fmt.Fprintf(&tb, "\tsay(\"inputs: %s\", %s)\n", strings.Repeat("%+v ", len(argNames)), derefList(argNames, sig))
+		tb.WriteString("\tpre := true\n")
+		for _, c := range d.Clauses {
+			if c.Kind == "requires" {
+				fmt.Fprintf(&tb, "\tif !%s(%s) { pre = false; say(\"precondition false: %%s\", %q) }\n", c.FnName, strings.Join(argNames, ", "), c.Text)
+			}
+		}
+		fmt.Fprintf(&tb, "\tif pre {\n\t\tfunc() {\n\t\t\tdefer func() { if r := recover(); r != nil { confirmed = true; say(\"CONFIRMED: ghost lemma %s fails on the real code: %%v\", r) } }()\n\t\t\t%s(%s)\n\t\t}()\n\t}\n", d.Name, d.Name, strings.Join(argNames, ", "))
 	default:
-		rr.Detail = "no replay for ghost functions"
+		rr.Detail = "no replay for this unit kind"
 		return rr
 	}
 	tb.WriteString("\tif confirmed { fmt.Println(\"REPLAY-CONFIRMED\") } else { fmt.Println(\"REPLAY-NOT-CONFIRMED\") }\n}\n")
